@@ -468,9 +468,14 @@ class _ChildrenList(_TaskList):
         :raises RuntimeError: if WBS integrity lost (i.e. task with same ID already exists)
         """
         _check_not_none(task, 'Task')
+        # The index refers to the list as it will be after the call
+        new_len = len([t for t in self._list if t is not task]) + 1
+        if not -new_len <= index < new_len:
+            raise IndexError("list index out of range")
         task.parent = self.__parent
-        if len(self) > 0:
-            self.move(task, before=self[index])
+        anchor = self[index]
+        if anchor is not task:
+            self.move(task, before=anchor)
 
     def move(self, tasks: Union['Task', Iterable['Task']], before: Optional['Task'] = None,
              after: Optional['Task'] = None) -> None:
@@ -492,17 +497,17 @@ class _ChildrenList(_TaskList):
             raise RuntimeError("After not found in list")
         if before is not None and after is not None:
             raise RuntimeError("'Before' and 'After' is not None. Only one parameter must be set")
+        if before is None and after is None:
+            raise RuntimeError("'Before' or 'After' must be not None")
+        if before in tasks or after in tasks:
+            raise RuntimeError("Can't move task before or after itself")
 
         for task in tasks:
             self._list.remove(task)
             if before is not None:
                 self._list.insert(self._list.index(before), task)
-            elif after is not None:
-                self._list.insert(self._list.index(after) + 1, task)
             else:
-                raise RuntimeError("'Before' or 'After' must be not None")
-
-        self.__setter(self._list)
+                self._list.insert(self._list.index(after) + 1, task)
 
     def sort(self, key: Union[str, List[str]], reverse=False) -> None:
         """
@@ -510,16 +515,15 @@ class _ChildrenList(_TaskList):
         :param key: attribute name or list of attribute names
         :param reverse: reverse sort
         """
+        # The list is updated in place: it is shared with the parent task and with other list views
         if type(key) is str:
-            self._list = sorted(self._list, key=lambda x: x.__getattribute__(key), reverse=reverse)
+            self._list[:] = sorted(self._list, key=lambda x: x.__getattribute__(key), reverse=reverse)
         elif type(key) is list or type(key) is tuple or type(key) is set:
-            self._list = sorted(self._list,
-                                key=lambda x: '-'.join([str(x.__getattribute__(k)) for k in key]),
-                                reverse=reverse)
+            self._list[:] = sorted(self._list,
+                                   key=lambda x: '-'.join([str(x.__getattribute__(k)) for k in key]),
+                                   reverse=reverse)
         else:
             raise RuntimeError(f"Unsupported key type {type(key)}")
-
-        self.__setter(self._list)
 
     def reorder(self, ids: List[int]) -> None:
         """
@@ -537,8 +541,7 @@ class _ChildrenList(_TaskList):
             new_list.append(ch)
             _all.remove(ch)
 
-        self._list = new_list + _all
-        self.__setter(self._list)
+        self._list[:] = new_list + _all
 
 
 class _PredecessorsList(_TaskList):
